@@ -80,7 +80,7 @@ def build_fault_campaign(tier, sd):
                         cp.add_cases(cid, [dm], ws)
                         nvar += 1
         # failing conditions and data initialisers
-        for variant in ("cond", "ifcond", "data"):
+        for variant in ("cond", "ifcond", "data", "foreach"):
             c = th()
             decorate(c)
             ok = False
@@ -94,6 +94,16 @@ def build_fault_campaign(tier, sd):
                 for n in c.states:
                     if n.onentry:
                         n.onentry[0].insert(1, if_((berr(), [log("never")]), (TRUE, [log("else")])))
+                        ok = True
+                        break
+            elif variant == "foreach":
+                # an error on the second iteration ends the loop and the rest of the block, not the next block
+                for n in c.states:
+                    if n.onentry:
+                        c.arrays["arrF"] = [1, 2, 3]
+                        n.onentry[0].insert(1, foreach("arrF", [1, 2, 3], "x",
+                                                       [log("fe", var("x")), if_((cmp_("==", var("x"), lit(2)), [fault("expr")])),
+                                                        log("fe2", var("x"))]))
                         ok = True
                         break
             else:
